@@ -550,17 +550,24 @@ func (ctx *RenderContext) CallFunction(name string, args []interface{}) (interfa
 
 	// Check if it's a macro
 	if macro, ok := ctx.GetMacro(name); ok {
-		// Return a callable function
-		return func(w io.Writer) error {
-			macroNode, ok := macro.(*MacroNode)
-			if !ok {
-				return fmt.Errorf("'%s' is not a macro", name)
-			}
-			return macroNode.CallMacro(w, ctx, args...)
-		}, nil
+		macroNode, ok := macro.(*MacroNode)
+		if !ok {
+			return nil, fmt.Errorf("'%s' is not a macro", name)
+		}
+		return ctx.macroResult(macroNode, args)
 	}
 
 	return nil, fmt.Errorf("function '%s' not found", name)
+}
+
+// macroResult calls a macro and returns what it rendered: the value of a macro
+// call is its output, whether it is printed, filtered, concatenated or assigned
+func (ctx *RenderContext) macroResult(macroNode *MacroNode, args []interface{}) (interface{}, error) {
+	var buf strings.Builder
+	if err := macroNode.CallMacro(&buf, ctx, args...); err != nil {
+		return nil, err
+	}
+	return buf.String(), nil
 }
 
 // callRangeFunction implements the range function
@@ -951,10 +958,7 @@ func (ctx *RenderContext) EvaluateExpression(node Node) (interface{}, error) {
 
 					// If the macro is a MacroNode, return a callable to render it
 					if macroNode, ok := macroObj.(*MacroNode); ok {
-						// Return a callable that can be rendered later
-						return func(w io.Writer) error {
-							return macroNode.CallMacro(w, ctx, args...)
-						}, nil
+						return ctx.macroResult(macroNode, args)
 					}
 				}
 			}
@@ -967,9 +971,7 @@ func (ctx *RenderContext) EvaluateExpression(node Node) (interface{}, error) {
 			// registered or built-in function of the same name must not take its place
 			if macro, ok := ctx.GetMacro(n.name); ok {
 				if macroNode, ok := macro.(*MacroNode); ok {
-					return func(w io.Writer) error {
-						return macroNode.CallMacro(w, ctx, args...)
-					}, nil
+					return ctx.macroResult(macroNode, args)
 				}
 			}
 
@@ -995,14 +997,11 @@ func (ctx *RenderContext) EvaluateExpression(node Node) (interface{}, error) {
 				args[i] = val
 			}
 
-			// Return a callable that can be rendered later
-			return func(w io.Writer) error {
-				macroNode, ok := macro.(*MacroNode)
-				if !ok {
-					return fmt.Errorf("'%s' is not a macro", n.name)
-				}
-				return macroNode.CallMacro(w, ctx, args...)
-			}, nil
+			macroNode, ok := macro.(*MacroNode)
+			if !ok {
+				return nil, fmt.Errorf("'%s' is not a macro", n.name)
+			}
+			return ctx.macroResult(macroNode, args)
 		}
 
 		// Otherwise, it's a regular function call
